@@ -19,7 +19,7 @@ from props import c01
 PROP = "C16"
 FLAVOURS = ["opt"]
 RULE = ("cases: (ia) seeded solutions in phreeqc, wateq4f, llnl, Amm, minteq.v4 (thorough: + minteq, core10, Tipping_Hurley, phreeqc_rates): LG of every species whose elements are present; "
-        "(gd) 1200-step composition paths of single salts and mixtures (NaCl, KCl, MgCl2, CaCl2, Na2SO4, MgSO4, NaBr, NaHCO3-free) in pitzer, sit, frezchem, ColdChem at 0-100 C (Concrete_PZ.dat is an add-on that does not load alone). "
+        "(gd) 1200-step composition paths of single salts and mixtures (NaCl, KCl, MgCl2, CaCl2, Na2SO4, MgSO4, NaBr; in pitzer.dat also NaCl+CO2 at pH 4.5, NaCl+B(OH)3, MgCl2+NaHCO3 at pH 8.3 for the neutral species) in pitzer, sit, frezchem, ColdChem at 0-100 C (Concrete_PZ.dat is an add-on that does not load alone). "
         "distinct & non-trivial = distinct (database, species, model) triples compared (ia) and distinct (database, salt system, temperature) paths (gd)")
 ASSUME = ["A and B of the Debye-Hueckel terms are the engine's reported DH_A / DH_B (the statement says 'evaluated at the reported ... constants'); for LLNL databases they are interpolated from the database text and must also equal the reported ones",
           "charged species of an LLNL database that carry no -llnl_gamma use the dielectric-based A that BASIC does not report in that mode: skipped",
@@ -28,13 +28,16 @@ ASSUME = ["A and B of the Debye-Hueckel terms are the engine's reported DH_A / D
 
 DBS_IA_QUICK = ["phreeqc.dat", "wateq4f.dat", "llnl.dat", "Amm.dat", "minteq.v4.dat"]
 DBS_IA_THOROUGH = DBS_IA_QUICK + ["minteq.dat", "core10.dat", "Tipping_Hurley.dat", "phreeqc_rates.dat"]
-GD_DBS = {"pitzer.dat": ["NaCl", "KCl", "MgCl2", "CaCl2", "Na2SO4", "MgSO4", "NaBr", "NaCl+KCl", "NaCl+MgCl2", "NaCl+Na2SO4"],
+GD_DBS = {"pitzer.dat": ["NaCl", "KCl", "MgCl2", "CaCl2", "Na2SO4", "MgSO4", "NaBr", "NaCl+KCl", "NaCl+MgCl2", "NaCl+Na2SO4",
+                         # paths that carry neutral aqueous species (CO2, B(OH)3, MgCO3): their molalities are part of the osmotic sum
+                         "NaCl+CO2", "NaCl+B(OH)3", "MgCl2+NaHCO3"],
           "sit.dat": ["NaCl", "KCl", "CaCl2", "NaCl+KCl"],
           "frezchem.dat": ["NaCl", "KCl", "MgCl2", "Na2SO4"],
           "ColdChem.dat": ["NaCl", "KCl", "MgCl2"]
           }     # Concrete_PZ.dat is an add-on to pitzer.dat, not a loadable database
 SALTS = {"NaCl": {"Na": 1, "Cl": 1}, "KCl": {"K": 1, "Cl": 1}, "MgCl2": {"Mg": 1, "Cl": 2}, "CaCl2": {"Ca": 1, "Cl": 2}, "Na2SO4": {"Na": 2, "S(6)": 1}, "MgSO4": {"Mg": 1, "S(6)": 1},
-         "NaBr": {"Na": 1, "Br": 1}}
+         "NaBr": {"Na": 1, "Br": 1}, "CO2": {"C(4)": 1}, "B(OH)3": {"B": 1}, "NaHCO3": {"Na": 1, "C(4)": 1}}
+PH_FIXED = {"CO2": 4.5, "B(OH)3": 6.5, "NaHCO3": 8.3}      # pH is given and Cl takes the charge balance on these paths
 MW = 0.0180153
 LN10 = math.log(10.0)
 
@@ -194,9 +197,12 @@ def run_gd(ctx, case):
     parts = case["system"].split("+")
     r = ctx.rng("gd", case["id"])
     ratio = [1.0] + [round(r.uniform(0.2, 1.5), 2) for _ in parts[1:]]
+    fixed_ph = next((PH_FIXED[p] for p in parts if p in PH_FIXED), None)
+    if fixed_ph is not None:
+        ratio = [1.0] + [round(r.uniform(0.05, 0.3), 3) for _ in parts[1:]]
     nstep = 1200
     mmax = {"pitzer.dat": 5.5, "sit.dat": 3.0, "frezchem.dat": 4.0, "ColdChem.dat": 4.0}[case["db"]]
-    if any(p in ("Na2SO4", "MgSO4", "KCl", "CaCl2", "MgCl2") for p in parts):
+    if any(p in ("Na2SO4", "MgSO4", "KCl", "CaCl2", "MgCl2") for p in parts) or fixed_ph is not None:
         mmax = min(mmax, 2.5)
     ms = [math.exp(math.log(1e-4) + i * (math.log(mmax) - math.log(1e-4)) / (nstep - 1)) for i in range(nstep)]
     els = {}
@@ -214,9 +220,9 @@ def run_gd(ctx, case):
             ln += 10
     text = "KNOBS\n -convergence_tolerance 1e-12\n -iterations 400\nSELECTED_OUTPUT 1\n -reset false\nUSER_PUNCH 1\n -headings " + " ".join(heads) + "\n -start\n" + "\n".join(prog) + "\n -end\n"
     for i, m in enumerate(ms):
-        text += "SOLUTION %d\n temp %s\n pH 7 charge\n units mol/kgw\n" % (i + 1, gens.fmt(case["temp"]))
+        text += "SOLUTION %d\n temp %s\n pH %s\n units mol/kgw\n" % (i + 1, gens.fmt(case["temp"]), "7 charge" if fixed_ph is None else gens.fmt(fixed_ph))
         for e, n in els.items():
-            text += " %s %.10g\n" % (e, n * m)
+            text += " %s %.10g%s\n" % (e, n * m, " charge" if fixed_ph is not None and e == "Cl" else "")
     text += "END\n"
     cwd = ctx.scratch(case["id"])
     s = core.Script()
